@@ -1187,7 +1187,7 @@ def check_knnf(ctx: Ctx, case, jobs: Jobs | None = None) -> bool:
             # all points closer than the cut distance plus any `need` of the points exactly at it
             ncomb = math.comb(len(ties), need)
             base = X64[must].sum(0) if must else torch.zeros(D, dtype=torch.float64)
-            if ncomb <= 1500:
+            if ncomb <= 600:
                 ctx.count("knnf.tie-rows-enumerated")
                 hit = False
                 for comb in itertools.combinations(ties, need):
@@ -1995,7 +1995,7 @@ def _battery(P, seed):
     (one point, one column, one voxel, batch of one) — run BETWEEN two identical calls of the operation under test"""
     g = torch.Generator().manual_seed(seed)
     for T in (torch.float32, torch.float64):
-        for shape in [(1, 1), (1, 3), (5, 3), (1, 1, 3), (2, 4, 3)]:
+        for shape in [(1, 1), (1, 3), (5, 3), (1, 1, 3)]:
             x = torch.randn(shape, generator=g, dtype=torch.float64).to(T).requires_grad_()
             if len(shape) == 2:
                 N = shape[0]
@@ -2083,10 +2083,9 @@ def sandwich_cases():
     out = []
     sd = 0
     for fn in ["knn", "knnf", "knnf_r", "nbr", "voxel", "voxel_r", "randf", "c2h", "h2c", "p2p", "px2pt", "reproj"]:
-        for dtp in ("float32", "float64"):
-            for deg in (True, False):
-                sd += 1
-                out.append({"stream": "sandwich", "fn": fn, "dtype": dtp, "degenerate": deg, "data_seed": sd, "N": 2})
+        for deg in (True, False):
+            sd += 1
+            out.append({"stream": "sandwich", "fn": fn, "dtype": ["float32", "float64"][sd % 2], "degenerate": deg, "data_seed": sd, "N": 2})
     return out
 
 
@@ -2228,7 +2227,8 @@ def check_large(ctx: Ctx, case, jobs: Jobs | None = None) -> bool:
     r = random.Random(seed)
     g = torch.Generator().manual_seed(seed)
     shape = {"flat": (M,), "lead1": (1, M), "trail1": (M, 1)}[case["shape"]]
-    cuts = sorted({1, M // 2, M - 1} | {M - (M % (1 << k_)) for k_ in (6, 10, 14, 17, 18) if 0 < M - (M % (1 << k_)) < M}) if M > 2 else [1]
+    blk = [M - (M % (1 << k_)) for k_ in (18, 17, 14, 10) if 0 < M - (M % (1 << k_)) < M]
+    cuts = sorted({1, M - 1} | set(blk[:2])) if M > 2 else [1]        # at the largest block boundaries: the last n % 2^k items alone
     items = sorted({0, M - 1, r.randrange(M)} | {M - (M % (1 << k_)) for k_ in (6, 10, 14, 17, 18) if M - (M % (1 << k_)) < M}
                    | {max(0, M - (M % (1 << k_)) - 1) for k_ in (10, 17, 18)})      # first / last item of the last partial block
 
@@ -2897,18 +2897,23 @@ def run(ctx: Ctx):
     torch.set_num_threads(2)
     jobs = Jobs()
     hiN = 300
-    plan = [("knn", gen_knn_case, ctx.pick(50, 1400)), ("nbr", gen_nbr_case, ctx.pick(60, 1600)),
-            ("voxel", gen_voxel_case, ctx.pick(60, 1600)), ("knnf", gen_knnf_case, ctx.pick(60, 1600)),
-            ("randf", gen_randf_case, ctx.pick(25, 600))]
+    plan = [("knn", gen_knn_case, ctx.pick(40, 1400)), ("nbr", gen_nbr_case, ctx.pick(45, 1600)),
+            ("voxel", gen_voxel_case, ctx.pick(45, 1600)), ("knnf", gen_knnf_case, ctx.pick(45, 1600)),
+            ("randf", gen_randf_case, ctx.pick(20, 600))]
     big_budget = {"knn": ctx.pick(1, 20), "nbr": ctx.pick(1, 20), "voxel": ctx.pick(2, 30), "knnf": ctx.pick(1, 20), "randf": 1000}
     # hand-made corner cases first (docstring clouds with the outliers moved, 1-point clouds, single voxel, ...)
     for c in corner_cases():
         run_case(ctx, c, jobs)
     # deterministic corpus (independent of VERIF_SEED): every class of the hardening list, small clouds
-    for c in corpus_cases():
+    corpus = corpus_cases()
+    if ctx.quick:
+        # quick runs a fixed two-thirds of the small-case sweeps (every class keeps several representatives; the sequence /
+        # history / edge / sandwich / large cases all run); thorough runs the whole corpus
+        corpus = [c for i_, c in enumerate(corpus) if c["stream"] in ("hist", "seq", "edge", "sandwich", "large") or i_ % 3 != 2]
+    for c in corpus:
         ctx.count("corpus")
         run_case(ctx, c, jobs if c.get("N", 0) <= 70 and c.get("N2", 0) <= 70 else None)
-    for _ in range(ctx.pick(8, 160)):
+    for _ in range(ctx.pick(6, 160)):
         run_case(ctx, gen_hist_case(rng, rng.choice([5, 8, 11])), jobs)
     if not ctx.quick:
         ks = list(range(8, 17))
@@ -2928,9 +2933,9 @@ def run(ctx: Ctx):
                     run_case(ctx, c, None)
                     continue
             run_case(ctx, c, jobs)
-    for _ in range(ctx.pick(50, 1500)):
+    for _ in range(ctx.pick(40, 1500)):
         run_case(ctx, gen_camera_case(rng), jobs)
-    for _ in range(ctx.pick(25, 600)):
+    for _ in range(ctx.pick(20, 600)):
         run_case(ctx, gen_homo_case(rng), jobs)
     jobs.flush(ctx)
 
@@ -3110,7 +3115,9 @@ def corpus_cases():
     out += edge_cases()
     # ---- pass 4 -------------------------------------------------------------------------------------------------
     # (19) large sizes: one > 2^14 and one > 2^16 per entry point (O(N) functions), 2^10+1 / 2^11+1 for the O(N^2) ones
-    out += gen_large_cases(r, [16385, 65537]) + gen_large_quadratic(r, [1025, 2049])
+    lg_ = gen_large_cases(r, [16385, 65537])
+    out += [c_ for c_ in lg_ if c_["M"] > 20000 or c_["fn"] in ("knn", "homo", "p2p") or (c_["fn"] == "voxel" and c_.get("cell") == 1 << 14)]
+    out += gen_large_quadratic(r, [1025, 2049])
     # (23) grad modes / default dtypes in fixed orders on fresh keys
     out += gen_seq_cases(r)
     # (21) user Tensor subclass, (25) default dtype x cloud dtype, (27) numpy scalars / numpy size vectors, per stream
@@ -3181,8 +3188,8 @@ def corpus_cases():
     #      ord 1 / 2 / inf, radius given / omitted, both dtypes, k = 1..4: the row must be the mean over SOME admissible choice
     for dtp in dts:
         for o in ORDS:
-            for (pd_, ex_, N_) in [(2, 1, 16), (3, 0, 27), (2, 0, 25), (1, 2, 9)]:
-                for kk_ in (1, 2, 3, 4):
+            for (pd_, ex_, N_) in [(2, 1, 16), (3, 0, 27), (1, 2, 9)]:
+                for kk_ in (1, 2, 4):
                     it += 1
                     q = dict(kind="grid", pdim=pd_, extra=ex_, N=N_, dtype=dtp, ord=o, mag_exp=0, shift=None, layout=None, gmode=None)
                     out.append(gen_knnf_case(r, 30, with_radius=bool(it % 2), radius_mode=["hit", "mid", "above"][it % 3], batch=[],
@@ -3221,7 +3228,7 @@ def corpus_cases():
     # (32) two identical calls around every other operation of the module (degenerate shapes)
     out += sandwich_cases()
     # (34) beyond the largest block: one size > 2^17 for the point-wise entry points
-    out += [c_ for c_ in gen_pointwise_large(r, [(1 << 17) + 37])]
+    out += [c_ for c_ in gen_pointwise_large(r, [(1 << 17) + 37]) if c_["fn"] != "randf"]
     for c_ in out:
         c_["own_check"] = True      # (15) every corpus case also checks that results own their memory
         for st_ in c_.get("steps", []):
